@@ -59,6 +59,9 @@ def _member_profile(tape, d, faulty, all_fail=False):
           "short_reads": tape.chance(1, 3, "short_reads"),
           "model_policy": tape.choice(["uniform", "first", "last"], "model_policy"),
           "value_delay": tape.choice([0.0, 0.0, 0.0, 6.5, 40.0], "value_delay")}
+    if faulty and tape.chance(1, 4, "member.stuck_at_exit"):
+        # the solver binary does not leave by itself after (exit): it has to be terminated
+        pf["stuck_at_exit"] = True
     if faulty and tape.chance(1, 8, "member.dies_after_answer"):
         # the statement promises no value from a survivor that died; the call must still not block forever
         pf["die_before_name"] = ["get-value", 1]
